@@ -33,6 +33,8 @@ def spec_table(vst):
             table.append('_vfunc_%d' % len(table))
     return table, None
 
+HARNESS_ENV = {'PXHARNESS_TEXT': '1'}
+
 def generate(rng, tier):
     n = 250 if tier == 'quick' else 5000
     o = gen.Opts(p_vftable=0.8, p_index=0.5, p_vft_size=0.5, p_base=0.45, p_enum=0.05, p_impl=0.15, p_backend=0.0,
@@ -47,7 +49,8 @@ def generate(rng, tier):
             v = nd[2][1]
             c = replace_at(c, p, [nd[0], nd[1], e_int(rng.choice([v - 1, v - 2, 0, -1, v + 1]))])
         out.append(c)
-    return out
+    from .. import o4exec
+    return out + o4exec.exec_worlds(rng, 10 if tier == 'quick' else 200, **dict(p_vftable=0.85, p_impl=0.2, p_index=0.5, p_vft_size=0.4))
 
 def node_at(x, p):
     for i in p:
@@ -136,3 +139,9 @@ def judge(c, impl, model):
         info['nontrivial'] = True
     count(info, 'slots-checked:%s' % ('0' if not checked else '1-2' if checked < 3 else '3-9' if checked < 10 else '10+'))
     return fs, info
+
+def judge_all(cases, impl, model, tier):
+    # O4 execution: the worlds whose id starts with 'ex' are compiled for the host and their wrappers / accessors RUN
+    from .. import o4exec
+    fs, info = o4exec.judge_exec(ID, cases, impl, tier)
+    return fs, info, []
